@@ -86,6 +86,18 @@ pub fn check_value(loc: &Locale, case: &Value, st: &mut Stats, mode: Count) {
     if back != li {
         st.fail("langid-locale-langid-not-identity", case.clone(), size, format!("{:?} -> {:?}", li.to_string(), back.to_string()));
     }
+    // the same through a present-but-empty variant list (safe constructor
+    // from_raw_parts_unchecked; an empty list is 'deduplicated and ordered'): the identity
+    // must hold for that representation too
+    if li.variants().len() == 0 {
+        let twin = LanguageIdentifier::from_raw_parts_unchecked(li.language, li.script, li.region, Some(Box::new([])));
+        let up2: Locale = Locale::from(twin.clone());
+        let id_ok = up2.id == twin;
+        let back2: LanguageIdentifier = LanguageIdentifier::from(up2);
+        if !id_ok || back2 != twin {
+            st.fail("langid-locale-langid-not-identity:present-but-empty-variants", case.clone(), size, format!("{:?} built with Some([]) does not survive LanguageIdentifier -> Locale -> LanguageIdentifier under ==", li.to_string()));
+        }
+    }
     let down: LanguageIdentifier = LanguageIdentifier::from(loc.clone());
     if down != loc.id {
         st.fail("into-langid-differs-from-id", case.clone(), size, format!("{:?} vs {:?}", down.to_string(), loc.id.to_string()));
